@@ -50,6 +50,7 @@ func c25Gen(rng *rand.Rand, tier string, w *bufio.Writer) {
 		nBase, maxN = 12, 60
 	}
 	id := 0
+	c25CompactCases(rng, &id, w, 8)
 	for b := 0; b < nBase; b++ {
 		chron := fmt.Sprintf("chron cfg %d 0.3", c02Pick(rng, 450, 900, 16384))
 		if b%2 == 1 {
@@ -81,6 +82,14 @@ func c25Gen(rng *rand.Rand, tier string, w *bufio.Writer) {
 			}
 			id++
 		}
+		// a write fault whose rollback truncate fails too (a repaired writer must cope with that)
+		for t := 0; t < 3; t++ {
+			fmt.Fprintf(w, "case %d inject writetrunc %d\n", id, 3+rng.Intn(maxN-4))
+			for _, l := range all {
+				fmt.Fprintln(w, l)
+			}
+			id++
+		}
 		// short writes: the file may grow K more bytes during one victim batch (+ its Sync)
 		for _, k := range []int{0, 1, 15, 16, 17, 100, 400} {
 			fmt.Fprintf(w, "case %d short %d\n", id, k)
@@ -96,6 +105,37 @@ func c25Gen(rng *rand.Rand, tier string, w *bufio.Writer) {
 			}
 			id++
 		}
+	}
+}
+
+// compaction under faults: a small fragmented history, closed, then a compaction through the CLI
+// body (Compactor.Compact), ForceCompaction (runCompactionLocked) or a Load self-heal is hit by a
+// write / fsync / rename error; afterwards a fresh chronicler loads the file.
+func c25CompactCases(rng *rand.Rand, id *int, w *bufio.Writer, nWrite int) {
+	h := &c03Hist{rng: rng}
+	chron := "chron name swmp"
+	var pre []string
+	pre = append(pre, chron, "live 1000000")
+	for b := 0; b < 3; b++ {
+		pre = append(pre, "w "+h.put(1)+","+h.put(2)+","+h.put(3), "sync")
+	}
+	pre = append(pre, "close")
+	post := []string{chron, "load", "w " + h.put(4), "sync", "close", chron, "load"}
+	for _, ep := range []string{"cli 0.01", "force"} {
+		all := append(append(append([]string{}, pre...), strings.Replace(ep, "force", chron+"\nforce", 1)), post...)
+		emit := func(title string) {
+			fmt.Fprintf(w, "case %d %s\n", *id, title)
+			for _, l := range all {
+				fmt.Fprintln(w, l)
+			}
+			*id++
+		}
+		// the history itself issues 17 writes and 4 fsyncs; the compaction's own operations come after
+		for n := 15; n < 15+nWrite; n++ {
+			emit(fmt.Sprintf("inject write %d compact-%s", n, strings.Fields(ep)[0]))
+		}
+		emit("inject fsync 5 compact-" + strings.Fields(ep)[0])
+		emit("inject rename 1 compact-" + strings.Fields(ep)[0])
 	}
 }
 
@@ -118,6 +158,10 @@ func c25Trace(in *bufio.Scanner, w *bufio.Writer) {
 					extra = []string{"-e", "inject=write:error=EIO:when=" + f[2]}
 				case "fsync":
 					extra = []string{"-e", "inject=fsync:error=EIO:when=" + f[2]}
+				case "rename":
+					extra = []string{"-e", "inject=rename,renameat,renameat2:error=EIO:when=" + f[2]}
+				case "writetrunc":
+					extra = []string{"-e", "inject=write:error=EIO:when=" + f[2], "-e", "inject=ftruncate:error=EIO:when=1"}
 				case "write2":
 					extra = []string{"-e", "inject=write:error=EIO:when=" + f[2], "-e", "inject=write:error=EIO:when=" + f[3]}
 				}
